@@ -30,7 +30,7 @@ class C14(Prop):
         "release/reload instants are observed by polling the idle-release decorator's active-run set every 0.25 virtual seconds",
         "a process stop = cancellation of every task of that server at one virtual instant; the store survives",
     ]
-    budgets = {"quick": 300, "thorough": 3000}
+    budgets = {"quick": 600, "thorough": 3000}
     wall = {"quick": 45.0, "thorough": 900.0}
 
     def setup(self):
